@@ -142,7 +142,9 @@ impl Storage {
                     "failed deserializing block with buffer length : {:?}",
                     buffer_len
                 );
-                return;
+                // (the files after this one are still loaded: giving up here would leave them unloaded,
+                // and what was not loaded is deleted by the start-up clean-up)
+                continue;
             }
             let mut block: Block = result.unwrap();
             block.force_loaded = true;
@@ -152,7 +154,7 @@ impl Storage {
                     "failed generating the block loaded from file : {:?} : {:?}",
                     file_name, error
                 );
-                return;
+                continue;
             }
             debug!("block : {:?} loaded from disk", block.hash.to_hex());
             mempool.add_block(block);
